@@ -1488,6 +1488,48 @@ def host_rules(ctx, prefix):
             # the selector written: [wx-host="<prefix>"] (,[is="<host>"])
             lits = [x.get("v") for x in sir.walk(blk) if x.get("k") == "lit" and x.get("t") == "str"]
             ok3 = "wx-host" in lits and "is" in lits and b"host".decode() in [y for y in lits] or ("wx-host" in lits and "is" in lits)
+            # .. and which parts are written depends on the options being present, not on their values: `[wx-host=..]` always,
+            # `,[is=..]` exactly when a host name is configured (tabulated with lib/absint.py over host_is = None / Some)
+            import absint as ai
+            clos = [a_ for x in lows for a_ in x["args"] if a_.get("k") == "closure"]
+            if len(clos) == 1:
+                def hk(it, e, st):
+                    if e.get("k") in ("call", "mcall"):
+                        ls = [x.get("v") for x in e["args"] if x.get("k") == "lit" and x.get("t") == "str"]
+                        if ls and ls[0] in ("wx-host", "is"):
+                            return [(ai.UNIT, st.event(("sel", ls[0])))]
+                        if e.get("k") == "mcall" and e["m"].startswith("append_"):
+                            return [(ai.UNIT, st)]
+                        if e.get("k") == "call" and (sir.call_path(e) or "").split("::")[-1] in ("wrap_at", "wrap"):
+                            return [(ai.FREE, st)]
+                        if e.get("k") == "call" and any(h.name == (sir.call_name(e) or "").split("::")[-1] and h.body for h in sc.fns):
+                            return [(ai.FREE, st)]
+                    return None
+                wrong, und = [], False
+                for label, hv in (("absent", ai.NONE), ("configured", ("Some", ai.FREE))):
+                    it = ai.Interp(hooks=hk, idx=sc)
+                    it.field_vars = {"host_is", "class_prefix"}
+                    env = {"ss": ai.FREE, "input": ai.FREE, "next": ai.FREE, "$f:host_is": hv, "$f:class_prefix": ai.FREE}
+                    for p_ in clos[0].get("params", []) or []:
+                        if isinstance(p_, dict) and p_.get("name"):
+                            env[p_["name"]] = ai.FREE
+                    try:
+                        outs = it.run(clos[0]["body"], env)
+                    except ai.TooManyPaths:
+                        outs = []
+                    if not outs:
+                        und = True
+                    for o in outs:
+                        got = [ev[1] for ev in o.events if ev[0] == "sel"]
+                        want = ["wx-host"] + (["is"] if label == "configured" else [])
+                        if got[:len(want)] != want or len([x for x in got if x == "is"]) != (1 if label == "configured" else 0):
+                            if o.tainted:
+                                und = True
+                            else:
+                                wrong.append("host name %s: writes %s" % (label, got or "nothing"))
+                obs.append(ob("%s.only/host-selector/parts" % prefix, False if wrong else None if und else True, ctx.where(g),
+                              "; ".join(sorted(set(wrong))) if wrong else "`[wx-host=..]` always, `,[is=..]` exactly when a host name is configured" if not und else "the selector emission was not followed: not decided",
+                              witness=None if not wrong else "host_is = \"\" : `:host{}` becomes `[wx-host=\"p\"]{}` without `,[is=\"\"]`"))
             obs.append(ob("%s.only/host-selector" % prefix, bool(ok3), ctx.where(g), "low-priority selector is built from `wx-host` (class prefix) and `is` (host_is): %s" % [l for l in lits if l in ("wx-host", "is")]))
             # declarations of the :host rule are transformed by the value routine
             ok4 = any(x.get("k") == "call" and sir.call_name(x) == value_routine(ctx) for x in sir.walk(blk))
@@ -1726,6 +1768,57 @@ def import_extra_rules(ctx, prefix, f, where):
                       witness=None if not missing else "`@import 'a' screen and env(foo);` emits `@media screen and env({...` unbalanced"))
     # (4) a flagged position is reported: the warning sink never drops a warning
     obs += warning_sink_rule(ctx, prefix)
+    # wave 9 -----------------------------------------------------------------------------------------------------------
+    roles = _roles(ctx)
+    dc = roles.get("import-conditions")
+    copiers = set(roles[r].fn.name for r in ("class-block", "value-block") if roles.get(r) is not None)
+    # (5) the content of `layer(..)` / `supports(..)` is copied by one of the block routines (every token of it, blocks nested):
+    #     the arm for each recognised function hands the block to such a routine
+    n5 = 0
+    for m_ in sir.walk(f.body):
+        if m_.get("k") != "match":
+            continue
+        lits = [(a, a["pat"]["e"].get("v")) for a in m_["arms"] if a["pat"].get("k") == "p_lit" and a["pat"]["e"].get("t") == "str"]
+        if not lits or not set(v for _a, v in lits) <= {"layer", "supports"}:
+            continue
+        for a, v in lits:
+            n5 += 1
+            cs = [(sir.call_name(x) or "").split("::")[-1] for x in sir.walk(a["body"], into_closures=True) if x.get("k") in ("call", "mcall")]
+            okc = bool(set(cs) & copiers)
+            adhoc = [c for c in cs if c.startswith("expect_") or c == "parse_nested_block"]
+            obs.append(ob("%s.wrap/condition-copied/%s" % (prefix, v), okc and not adhoc, where, "the content of `%s(..)` is copied by %s" % (v, sorted(set(cs) & copiers)) if okc and not adhoc else "the content of `%s(..)` is read by %s: what does not fit is dropped" % (v, adhoc or cs[:3]),
+                          witness=None if okc and not adhoc else "@import 'a' layer(framework.base); is wrapped in `@layer framework{..}`"))
+    if n5 < 2:
+        obs.append(ob("%s.wrap/condition-copied" % prefix, None, where, "the arms for `layer` / `supports` are not in a form this rule reads: not decided"))
+    # (6) the media list starts at the first identifier or parenthesis after the functions: the scanning loop consumes neither
+    if dc is not None:
+        bad = []
+        n6 = 0
+        for a in dc.arms:
+            if not ({"Ident", "ParenthesisBlock"} & set(a.variants)):
+                continue
+            n6 += 1
+            consumed = [x["m"] for x in sir.walk(a.body) if x.get("k") == "mcall" and sir.expr_str(x["recv"]) == "input" and (x["m"] in ("next", "next_including_whitespace") or x["m"].startswith("expect_"))]
+            sets = any(x.get("k") == "assign" and sir.expr_str(x["l"]) == "has_media" and x["r"].get("v") is True for x in sir.walk(a.body))
+            if consumed:
+                bad.append("the arm `%s` consumes the token (%s) instead of leaving it to the media list" % (sir.pat_str(a.node["pat"])[:40], consumed[0]))
+            elif not sets and any(x.get("k") == "assign" and sir.expr_str(x["l"]) == "has_media" for x in sir.walk(dc.loop)):
+                bad.append("the arm `%s` does not start the media list" % sir.pat_str(a.node["pat"])[:40])
+        obs.append(ob("%s.wrap/media-start" % prefix, (not bad) if n6 else None, where, "; ".join(bad) if bad else "an identifier or `(` ends the scan and starts the media list, untouched" if n6 else "no arm for identifiers in the scanning loop: not decided",
+                      witness=None if not bad else "@import 'a' all and (min-width:1px); is wrapped in `@media and (min-width:1px){..}`"))
+    # (7) output is produced from tokens: source text is never copied (raw appends replay text the compiler itself has written
+    #     into the low-priority stream)
+    raws = []
+    for g in sc.fns:
+        if not g.body or g.base == "StyleSheetOutput":
+            continue
+        for x in sir.walk(g.body, into_closures=True):
+            if x.get("k") == "mcall" and x["m"] == "append_raw" and "low_priority_output" not in sir.expr_str(x["recv"]):
+                raws.append("%s appends raw text to `%s`" % (g.name, sir.expr_str(x["recv"])[:40]))
+            if x.get("k") == "mcall" and x["m"] in ("slice_from", "slice", "current_line") and "input" in sir.expr_str(x["recv"]):
+                raws.append("%s takes a slice of the source text (`%s`)" % (g.name, x["m"]))
+    obs.append(ob("%s.tokens-only" % prefix, not raws, "lib.rs", "; ".join(sorted(set(raws))[:3]) if raws else "no source text is copied into the output: everything is re-serialised from tokens",
+                  witness=None if not raws else "@import 'a' (min-width: 750rpx); keeps `750rpx` when no import sign is configured"))
     return obs
 
 
